@@ -102,6 +102,8 @@ type veEnv struct {
 	swapSize  int64
 	swapFn    func()
 	versionOf func(name, hash string) string
+	failHeadOf string
+	failHeadN  int
 }
 
 func veMD5(b []byte) string { return fmt.Sprintf("%x", md5.Sum(b)) }
@@ -268,6 +270,25 @@ func (e *veEnv) transmit(p sts.Payload) (int, error) {
 	if f.kind == "unavail" {
 		e.ev("txret", "err", "unavailable")
 		return 0, errors.New("503")
+	}
+	if e.failHeadOf != "" {
+		// sticky fault: the request that carries the FIRST part of this file is refused a few times,
+		// whichever connection sends it and whenever
+		hit := false
+		for _, part := range parts {
+			if w := e.wire(part); w.name == e.failHeadOf && w.beg == 0 {
+				hit = true
+			}
+		}
+		e.mu.Lock()
+		if hit && e.failHeadN > 0 {
+			e.failHeadN--
+			e.mu.Unlock()
+			time.Sleep(15 * time.Millisecond)
+			e.ev("txret", "err", "unavailable (head of "+e.failHeadOf+")")
+			return 0, errors.New("503")
+		}
+		e.mu.Unlock()
 	}
 	if !e.st.Ready() {
 		e.ev("txret", "err", "not ready")
@@ -467,6 +488,8 @@ type veScenario struct {
 	stopAfterTx   int  // stop at the k-th interface event counted from the first answer to a data request
 	stopAtPoll    bool // stop while the first poll answer is on its way back
 	crashAfterTx  int  // crash at the k-th interface event counted from the first answer to a data request
+	failHeadOf    string // the request carrying the first part of this file is refused failHeadN times
+	failHeadN     int
 	goneWhileDown bool // crash profiles: one unfinished source file is removed while the sender is down
 	swap      string // name of a file replaced by a same-size version (mtime in the same second) right after its last byte was received
 	scanDelay time.Duration
@@ -489,6 +512,12 @@ func veContent(f veFileSpec, version int) []byte {
 		}
 	}
 	return b
+}
+
+// vePollMax: how many files go into one poll request (also at restart recovery): small, so that
+// batches are split (derived from the scenario so that a scenario is reproducible)
+func vePollMax(sc veScenario) int {
+	return 1 + (len(sc.files)+sc.threads+int(sc.payload))%3
 }
 
 func veScanDelay(sc veScenario) time.Duration {
@@ -527,7 +556,7 @@ func (e *veEnv) newBroker(sc veScenario) (*Broker, *veStore) {
 		Validator: e.validate, Logger: &veSentLog{FileIO: e.slog, e: e}, Tagger: func(string) string { return "" },
 		CacheAge: time.Hour, ScanDelay: veScanDelay(sc), Threads: sc.threads,
 		PayloadSize: units.Base2Bytes(sc.payload), StatInterval: time.Hour,
-		PollDelay: 5 * time.Millisecond, PollInterval: 10 * time.Millisecond, PollAttempts: 3, PollMaxCount: 100,
+		PollDelay: 5 * time.Millisecond, PollInterval: 10 * time.Millisecond, PollAttempts: 3, PollMaxCount: vePollMax(sc),
 		Tags: []*FileTag{{Name: "", InOrder: true, Delete: sc.del}}, ErrorBackoff: 0,
 	}}
 	return b, ws
@@ -543,6 +572,7 @@ func veRun(tmp string, sc veScenario) string {
 		acked: map[string]int64{}, sentBytes: map[string]int64{}, txRanges: map[string][][2]int64{},
 		crashed: make(chan bool, 1), block: make(chan bool),
 		faults: append([]veFault{}, sc.faults...), pollFault: append([]string{}, sc.pollFault...),
+		failHeadOf: sc.failHeadOf, failHeadN: sc.failHeadN,
 		freezeAt: sc.crashAt, freezeAfterTx: sc.crashAfterTx, stopAt: sc.stopAt, stopAfterTx: sc.stopAfterTx, stopAtPoll: sc.stopAtPoll}
 	for _, d := range []string{e.out, e.cacheDir, e.stageDir, e.finalDir} {
 		os.MkdirAll(d, 0o755)
@@ -1085,6 +1115,18 @@ func veGen(r *gen.Rand, id string, profile string) veScenario {
 			sc.faults = append(sc.faults, veFault{kind: "corrupt", at: 0})
 		}
 		sc.pollFault = []string{"slow"}
+	case "ooo":
+		// acknowledgements out of order: one file over several payloads, two or three connections, and the
+		// request that carries its FIRST part keeps failing while the later ones go through
+		sc.files = []veFileSpec{{name: "g.big", size: 100 + r.Intn(50), seedb: byte(1 + r.Intn(200)), age: 30 * time.Second, eligible: true}}
+		if r.Chance(1, 2) {
+			sc.files = append(sc.files, veFileSpec{name: "g.tail", size: 1 + r.Intn(30), seedb: byte(1 + r.Intn(200)), age: 20 * time.Second, eligible: true})
+		}
+		sc.threads = 2 + r.Intn(2)
+		sc.payload = int64(30 + r.Intn(15))
+		sc.chunk = sc.payload
+		sc.files[0].size = int(sc.payload) * (2 + r.Intn(3)) // whole payloads: the last part is not held back by the binner
+		sc.failHeadOf, sc.failHeadN = "g.big", 2+r.Intn(4)
 	case "pollnone":
 		// the first requests are swallowed on the way (answered 200, never reach the receiver): the
 		// receiver answers "unknown" poll after poll; nothing may be released, everything is sent again
@@ -1177,7 +1219,7 @@ func TestVerifE2E(t *testing.T) {
 	}
 	profiles := strings.Split(os.Getenv("VERIF_E2E_PROFILES"), ",")
 	if os.Getenv("VERIF_E2E_PROFILES") == "" {
-		profiles = []string{"plain", "faults", "stop", "crash", "reuse", "mutate", "vanish", "eligible", "swap", "stopfail", "pollnone", "crashfail", "crashgone"}
+		profiles = []string{"plain", "faults", "stop", "crash", "reuse", "mutate", "vanish", "eligible", "swap", "stopfail", "pollnone", "crashfail", "crashgone", "ooo"}
 	}
 	N := gen.EnvInt("VERIF_E2E_N", 12)
 	if gen.Thorough() {
